@@ -125,17 +125,20 @@ def containsSub (p : Str) : Str → Bool
   | [] => p.isEmpty
   | c :: t => p.isPrefixOf (c :: t) || containsSub p t
 
+/-- the part of `check` after the licence notice has been skipped -/
+def pragmaOrdinary (s : PragmaState) (n : Nat) (l : Str) : PragmaState :=
+  let s1 := if startsWith l "#include" = true ∧ s.reportEmptyLine = none
+    then { s with reportEmptyLine := some (decide (0 < s.emptyLineNumber)) } else s
+  let s2 := if startsWith l "#" = true ∧ s1.reportEmptyLine = none then { s1 with reportEmptyLine := some false } else s1
+  let s3 := if s2.gotPragmaOnce = some true ∧ l.isEmpty = true then { s2 with emptyLineNumber := n } else s2
+  if s3.gotPragmaOnce = none then { s3 with gotPragmaOnce := some (decide (l = "#pragma once".toList)) } else s3
+
 def pragmaCheck (s : PragmaState) (n : Nat) (l : Str) : PragmaState :=
   let s := if startsWith l "/**" then { s with insideComment := 1, gotLicense := true } else s
   if s.insideComment = 1 then
     if containsSub "**/".toList l then { s with insideComment := 2 } else s
   else if s.insideComment = 2 then { s with insideComment := 3 }
-  else
-    let s := if startsWith l "#include" ∧ s.reportEmptyLine = none
-      then { s with reportEmptyLine := some (decide (0 < s.emptyLineNumber)) } else s
-    let s := if startsWith l "#" ∧ s.reportEmptyLine = none then { s with reportEmptyLine := some false } else s
-    let s := if s.gotPragmaOnce = some true ∧ l.isEmpty then { s with emptyLineNumber := n } else s
-    if s.gotPragmaOnce = none then { s with gotPragmaOnce := some (l = "#pragma once".toList) } else s
+  else pragmaOrdinary s n l
 
 /-- `isHeader`: the path ends in `.h` -/
 def pragmaOnce (isHeader : Bool) : Validator PragmaState :=
